@@ -48,6 +48,27 @@ def mitm_setup(case):
         if case.get("check_value") is not None:
             # the client's random connection check at a boundary of its 32 bits (the response is check + 1 modulo 2^32)
             sim.prudp_rand.force = {0xFFFFFFFF: case["check_value"]}
+        if case.get("ack_lost") or case.get("connect_dup"):
+            # the network loses the first CONNECT acknowledgement(s) (the client retransmits its CONNECT to a server that has already
+            # created the connection) or delivers the CONNECT twice: a valid fresh request must still be answered with check + 1
+            sel = prudp.PRUDPMessageSelector(out.settings_s)
+            orig0 = sim.net.fate
+            st0 = {"lost": 0, "dup": False}
+            def fate0(tx):
+                try:
+                    pk = sel.decode(tx.data)
+                except Exception:
+                    pk = []
+                if len(pk) == 1 and pk[0].type == 1:
+                    if pk[0].flags & 1 and tx.src == ps.SERVER and st0["lost"] < case.get("ack_lost", 0):
+                        st0["lost"] += 1
+                        return []
+                    if not pk[0].flags & 1 and tx.dst == ps.SERVER and case.get("connect_dup") and not st0["dup"]:
+                        st0["dup"] = True
+                        sim.net.inject(tx.src, tx.dst, tx.data, 0.006)
+                return orig0(tx)
+            sim.net.fate = fate0
+            return
         if not (case.get("req_mut") or case.get("resp") or case.get("replay") or case.get("other_user")):
             return
         s = out.settings_s
@@ -171,6 +192,9 @@ def work(args):
                 if getattr(sess, "server_pid_end", None) != pid_seen:
                     bad.append("the handler admitted for user %r observes user %r on the same connection after a CONNECT carrying another user's valid ticket arrived from the same address"
                                % (pid_seen, getattr(sess, "server_pid_end", None)))
+            if (case.get("ack_lost") or case.get("connect_dup")) and connected:
+                if sess.got.get(("s", 0)) != [b"hello"] or sess.got.get(("c", 0)) != [b"world"]:
+                    bad.append("data did not flow after a lost CONNECT acknowledgement / a duplicated CONNECT: %r / %r" % (sess.got.get(("s", 0)), sess.got.get(("c", 0))))
             if (case.get("replay") or case.get("other_user")) and connected:
                 if sess.got.get(("s", 0)) != [b"hello"] or sess.got.get(("c", 0)) != [b"world"]:
                     bad.append("data did not flow after a replayed CONNECT: %r / %r" % (sess.got.get(("s", 0)), sess.got.get(("c", 0))))
@@ -285,6 +309,10 @@ def cases(rng, quick):
                 out.append(dict(name="same-ticket-two-servers", transport=transport, version=version, ticket_version=tv,
                                 history=[dict(h, transport=transport, version=version, ticket_version=tv) for h in hist], expect=None))
     # D. replay
+    for transport, version in (("udp", 1), ("udp", 0)):
+        for tv in (0, 1):
+            out.append(dict(name="connect-ack-lost", ack_lost=1, transport=transport, version=version, ticket_version=tv, pid_size=rng.choice([4, 8]), expect=OK))
+            out.append(dict(name="connect-duplicated", connect_dup=True, transport=transport, version=version, ticket_version=tv, expect=OK))
     out.append(dict(name="replayed-connect", replay=True, expect=OK))
     for pid_size in (4, 8):
         for tv in (0, 1):
